@@ -243,20 +243,21 @@ def run(rep: Report, prog: Program, tier: str) -> None:
     tl = prog.func("redress.policy.runner.timeline:_resolve_timeline")
     from .common import timeline_hook
 
-    hook, hook_ref = timeline_hook(prog)
-    if hook is None:
-        raise AnalysisError("timeline wrapper (the function _resolve_timeline installs as the metric hook) not found")
+    from .common import timeline_hook_paths
+
+    hook, hook_ref, hp, hook_paths = timeline_hook_paths(prog)
     rep.analysed(hook.qual)
-    hp = hook.param_names()[1:] if hook.is_method and not hook.is_staticmethod else hook.param_names()
-    for p in engine(prog).paths(hook):
-        recs = [e for e in p.calls() if e.is_repo("_TimelineCollector.record")]
+    for p in hook_paths:
+        # the record step: one TimelineEvent built from the hook's own (event, attempt, sleep_s) - in a collector method
+        # read through here, or in the hook itself - and added to the timeline
+        recs = [e for e in p.calls(pure=None) if e.is_ctor("TimelineEvent")]
         dele = [e for e in p.calls() if e.callback() == "on_metric"]
         params = [("param", n) for n in hp]
         rep.instance("R14.4", "timeline-hook|" + "|".join(p.describe()[-2:]))
-        # record(...) by the callee's parameter names (positional or keyword), in the order event, attempt, sleep_s, tags
-        ok = len(recs) == 1 and set(recs[0].kwargs) == {"event", "attempt", "sleep_s", "tags"} and all(recs[0].kwargs[k] == ("param", hp[i]) for i, k in enumerate(("event", "attempt", "sleep_s", "tags"))) and all(d.args == params for d in dele) and len(dele) <= 1
-        if dele:
-            ok = ok and p.index_of(recs[0]) < p.index_of(dele[0])
+        adds = [e for e in p.calls() if isinstance(e.node.ast, ast.Call) and isinstance(e.node.ast.func, ast.Attribute) and e.node.ast.func.attr == "add" and recs and e.args and e.args[0] == recs[0].result]
+        ok = len(recs) == 1 and len(hp) == 4 and all(recs[0].kwargs.get(k) == ("param", hp[i]) for i, k in enumerate(("event", "attempt", "sleep_s"))) and len(adds) == 1 and all(d.args == params for d in dele) and len(dele) <= 1
+        if dele and ok:
+            ok = p.index_of(adds[0]) < p.index_of(dele[0])
         # "no caller hook": the closure's free `on_metric`, or the field of the collector it was stored in
         none_branch = any(a[0] == "cmp" and a[1] == "is" and a[3] == ("const", None) and pol and (a[2] == ("free", "on_metric") or (isinstance(a[2], tuple) and a[2][0] == "attr" and a[2][1] == ("param", hook.param_names()[0]))) for a, pol, _ in p.conds)
         ok = ok and (bool(dele) != none_branch)
